@@ -89,6 +89,31 @@ namespace TAO_PEGTL_NAMESPACE
 #endif
       }
 
+      template< typename Rule,
+                template< typename... >
+                class Control,
+                typename Apply,
+                typename ParseInput,
+                typename... States >
+      [[nodiscard]] bool apply_control_unwind( const Apply& apply, const ParseInput& in, States&&... st )
+      {
+#if defined( __cpp_exceptions )
+         if constexpr( has_unwind< Control< Rule >, void, const ParseInput&, States... > ) {
+            unwind_guard ug( [ & ] {
+               Control< Rule >::unwind( in, st... );
+            } );
+            const bool result = apply();
+            ug.unwind.reset();
+            return result;
+         }
+         else {
+            return apply();
+         }
+#else
+         return apply();
+#endif
+      }
+
    }  // namespace internal
 
    template< typename Rule,
@@ -140,18 +165,28 @@ namespace TAO_PEGTL_NAMESPACE
          auto m = in.template auto_rewind< ( use_guard ? rewind_mode::required : rewind_mode::optional ) >();
          Control< Rule >::start( static_cast< const ParseInput& >( in ), st... );
          auto result = internal::match_control_unwind< Rule, A, ( use_guard ? rewind_mode::optional : M ), Action, Control >( in, st... );
-         if( result ) {
-            if constexpr( has_apply_void ) {
-               Control< Rule >::template apply< Action >( m.inputerator(), static_cast< const ParseInput& >( in ), st... );
-            }
-            else if constexpr( has_apply_bool ) {
-               result = Control< Rule >::template apply< Action >( m.inputerator(), static_cast< const ParseInput& >( in ), st... );
-            }
-            else if constexpr( has_apply0_void ) {
-               Control< Rule >::template apply0< Action >( static_cast< const ParseInput& >( in ), st... );
-            }
-            else if constexpr( has_apply0_bool ) {
-               result = Control< Rule >::template apply0< Action >( static_cast< const ParseInput& >( in ), st... );
+         if constexpr( has_apply || has_apply0 ) {
+            if( result ) {
+               // An exception thrown by the action passes through this rule, too: unwind() must see it.
+               result = internal::apply_control_unwind< Rule, Control >(
+                  [ & ]() -> bool {
+                     if constexpr( has_apply_void ) {
+                        Control< Rule >::template apply< Action >( m.inputerator(), static_cast< const ParseInput& >( in ), st... );
+                        return true;
+                     }
+                     else if constexpr( has_apply_bool ) {
+                        return Control< Rule >::template apply< Action >( m.inputerator(), static_cast< const ParseInput& >( in ), st... );
+                     }
+                     else if constexpr( has_apply0_void ) {
+                        Control< Rule >::template apply0< Action >( static_cast< const ParseInput& >( in ), st... );
+                        return true;
+                     }
+                     else {
+                        return Control< Rule >::template apply0< Action >( static_cast< const ParseInput& >( in ), st... );
+                     }
+                  },
+                  static_cast< const ParseInput& >( in ),
+                  st... );
             }
          }
          if( result ) {
